@@ -4,7 +4,7 @@ import json, os, glob
 V = os.path.dirname(os.path.dirname(os.path.abspath(__file__)))
 print("| seed | property | files | needs to manifest | check -> result |")
 print("|---|---|---|---|---|")
-for d in sorted(glob.glob(os.path.join(V, "seeded", "*"))):
+for d in sorted(x for x in glob.glob(os.path.join(V, "seeded", "*")) if os.path.isdir(x)):
     m = json.load(open(os.path.join(d, "meta.json")))
     runs = "; ".join("%s: %s%s" % (p, r.get("result"), "" if r.get("failing_input_found", True) or r.get("result") != "caught" else " (no-failing-input-found)")
                      for p, r in sorted(m.get("checks_run", {}).items()))
